@@ -62,7 +62,7 @@ RULE = (
 )
 BUDGET = {"quick": 1200, "thorough": 8000}
 ASSUMPTIONS = [
-    "Taillard text written by the check: header line, one line per job of 'machine duration' pairs, optional # comment lines, single trailing newline",
+    "Taillard text written by the check: header line, one line per job of 'machine duration' pairs, optional # comment lines, optionally leading / trailing blanks on comment and job lines (the reader strips lines), single trailing newline",
     "'never a hang' is decided by a 20 s alarm around calls that normally take < 5 ms",
 ]
 
@@ -200,17 +200,18 @@ def same_content(ctx, clause, a, b, what):
     ctx.check(dict(a.metadata) == dict(b.metadata), clause, f"{what}: metadata {b.metadata!r} != {a.metadata!r}")
 
 
-def taillard_text(inst, comments):
+def taillard_text(inst, comments, indent=False):
     d, m = inst["durations"], inst["machines"]
     n_m = 1 + max(x for row in m for ms in row for x in ms)
+    pad = "  " if indent else ""
     lines = []
     if comments:
-        lines.append("# generated by the C14 check")
+        lines.append(pad + "# generated by the C14 check")
     lines.append(f"{len(d)} {n_m}")
     for j, row in enumerate(d):
         if comments and j == 1:
-            lines.append("#   a comment between jobs")
-        lines.append(" ".join(f"{m[j][p][0]} {row[p]}" for p in range(len(row))))
+            lines.append(pad + "#   a comment between jobs")
+        lines.append(pad + " ".join(f"{m[j][p][0]} {row[p]}" for p in range(len(row))) + ("  " if indent else ""))
     return "\n".join(lines) + "\n"
 
 
@@ -310,6 +311,17 @@ def instance_case(case, ctx):
         f"to_dict keys {sorted(dct)}",
     )
     same_content(ctx, "roundtrip:dict", instance, JobShopInstance.from_matrices(**dct), "from_matrices(**to_dict())")
+    # from_matrices given matrices in a spelling other than the normalised
+    # one (single machines as one-element lists / a mix of ints and lists)
+    for variant in (0, 1):
+        spelled = [
+            [ms[0] if (len(ms) == 1 and (variant == 1 and (j + p) % 2 == 0)) else list(ms) for p, ms in enumerate(row)]
+            for j, row in enumerate(inst["machines"])
+        ]
+        built = JobShopInstance.from_matrices(
+            [list(r) for r in inst["durations"]], spelled, name=inst["name"], metadata=dict(inst["meta"])
+        )
+        check_views(ctx, inst, built, f"from_matrices(machines spelled as {spelled})")
     via_json = json.loads(json.dumps(dct))
     same_content(ctx, "roundtrip:json", instance, JobShopInstance.from_matrices(**via_json), "from_matrices(**json(to_dict()))")
     if not flexible:
@@ -323,7 +335,7 @@ def instance_case(case, ctx):
                 path = os.path.join(tmp, "instance.txt")
                 kwargs = {"name": name}
             with open(path, "w", encoding="utf-8") as f:
-                f.write(taillard_text(inst, case["comments"]))
+                f.write(taillard_text(inst, case["comments"], indent=bool(case["tour"] & 128)))
             back = JobShopInstance.from_taillard_file(path, **kwargs, **inst["meta"])
         same_content(ctx, "roundtrip:taillard", instance, back, "from_taillard_file(text written from the instance)")
         ctx.count("taillard_roundtrips")
